@@ -154,6 +154,81 @@ def finalize (s : St) (choices : List Nat) : M FinOut := do
     | (_, cps) :: _ =>
       return ⟨{ s1 with final := s.final ++ (cps.drop 1).take index }, banned⟩
 
+/-! ### `get_latest_block_filter_hashes`
+
+`Peers::get_latest_block_filter_hashes(finalized_check_point_index)`: the filter hashes of the
+blocks after the last finalized check point that the required number of proven peers agree on.
+`data` is `peers_with_data` (the PROVEN peers whose `latest_block_filter_hashes.check_point_number`
+is the finalized number, with their hash lists); `choices` is the hash the implementation picks
+at each index (`map.into_iter().find_map(count == count_max)`: with several maximal-count hashes
+the `HashMap` order decides — choice-as-input, validated here). -/
+
+/-- the loop `for index in 0..length_max` (`fuel` iterations left, at index `idx`); `none` = a
+choice is missing or is not a maximal-count hash -/
+def latestLoop (required : Nat) : Nat → Nat → List Nat → List (Nat × List Nat) → Option (List Nat)
+  | 0, _, _, _ => some []
+  | fuel+1, idx, choices, data =>
+    let t := tally data idx
+    let cm := maxCount t
+    if required ≤ cm then
+      match choices with
+      | [] => none
+      | c :: cs =>
+        if ((t.filter (·.2 = cm)).map (·.1)).contains c then
+          -- `if count_max != peers_with_data.len() { peers_with_data.retain(..) }`
+          let data' := if cm ≠ data.length then data.filter (fun d => d.2[idx]? = some c) else data
+          (latestLoop required fuel (idx + 1) cs data').map (c :: ·)
+        else none
+    else some []
+
+/-- `get_latest_block_filter_hashes` for `required = required_peers_count()` (which is at least 1:
+`requiredPeers`; with `required = 0` the index `required - 1` below is not the code's) -/
+def latestAgreed? (required : Nat) (data : List (Nat × List Nat)) (choices : List Nat) :
+    Option (List Nat) :=
+  if data.length < required then some []
+  else
+    let sizes := sortNat (data.map (·.2.length))
+    let lengthMax := sizes[required - 1]?.getD 0
+    latestLoop required lengthMax 0 choices data
+
+/-- the same, `[]` for invalid choices -/
+def latestAgreed (required : Nat) (data : List (Nat × List Nat)) (choices : List Nat) : List Nat :=
+  (latestAgreed? required data choices).getD []
+
+/-- with `required_peers_count()` computed (and panicking for `max_outbound_peers = 0`) as in the
+code -/
+def latestFor (maxOutbound : Nat) (data : List (Nat × List Nat)) (choices : List Nat) :
+    M (Option (List Nat)) := do
+  let required ← requiredPeers maxOutbound
+  return latestAgreed? required data choices
+
+/-- NOT the code: the seeded rule of /verif/seeded/C06b — the quorum test of an index is "at
+least `required` of the remaining peers have SOME hash there" and the most common hash wins -/
+def latestLoopSomeHash (required : Nat) :
+    Nat → Nat → List Nat → List (Nat × List Nat) → Option (List Nat)
+  | 0, _, _, _ => some []
+  | fuel+1, idx, choices, data =>
+    let t := tally data idx
+    let cm := maxCount t
+    if required ≤ ((data.map (fun d => d.2[idx]?)).filterMap id).length then
+      match choices with
+      | [] => none
+      | c :: cs =>
+        if ((t.filter (·.2 = cm)).map (·.1)).contains c then
+          let data' := if cm ≠ data.length then data.filter (fun d => d.2[idx]? = some c) else data
+          (latestLoopSomeHash required fuel (idx + 1) cs data').map (c :: ·)
+        else none
+    else some []
+
+/-- NOT the code: `get_latest_block_filter_hashes` with the seeded rule -/
+def latestAgreedSomeHash (required : Nat) (data : List (Nat × List Nat)) (choices : List Nat) :
+    Option (List Nat) :=
+  if data.length < required then some []
+  else
+    let sizes := sortNat (data.map (·.2.length))
+    let lengthMax := sizes[required - 1]?.getD 0
+    latestLoopSomeHash required lengthMax 0 choices data
+
 /-! ### driver -/
 
 def showOptNat : Option Nat → String
@@ -169,6 +244,25 @@ def splitBar (ts : List String) : List String × List String :=
   | (a, _ :: b) => (a, b)
   | (a, []) => (a, [])
 
+def splitOnTok (sep : String) (ts : List String) : List (List String) :=
+  ts.foldr (fun t acc => if t = sep then [] :: acc else
+    match acc with
+    | g :: gs => (t :: g) :: gs
+    | [] => [[t]]) [[]]
+
+/-- `<peer> : <hashes…> ; <peer> : <hashes…> ; …` -/
+def parsePeerTable (ts : List String) : Option (List (Nat × List Nat)) :=
+  ((splitOnTok ";" ts).filter (· ≠ [])).mapM (fun g =>
+    match g with
+    | pid :: ":" :: hs => match pid.toNat?, natsOf hs with
+      | some pid, some hs => some (pid, hs)
+      | _, _ => none
+    | _ => none)
+
+def showLatest : Option (List Nat) → String
+  | none => "bad-choice"
+  | some l => " ".intercalate ("ok" :: l.map toString)
+
 /-- ops (state threaded by the driver):
   `init maxOutbound interval cp0`          fresh store with check point 0 = cp0
   `peer pid proved start cp`               add (or reset) a peer with vector `[cp]` at index `start`
@@ -177,7 +271,14 @@ def splitBar (ts : List String) : List String × List String :=
   `del pid`
   `addcp pid lastProved startNumber | cps…`
   `fin | choices…`
-  `dump` -/
+  `dump`
+  `latest required | choices… | peer : hashes… ; peer : hashes… ; …`
+                                           `get_latest_block_filter_hashes` on the given table of
+                                           proven peers with data (stateless): `ok hashes…`, or
+                                           `bad-choice` when a choice is missing / not a
+                                           maximal-count hash; `required = 0` is answered like
+                                           `required_peers_count()` (`panic expect 50`)
+  `latestmo maxOutbound | choices… | peers` the same with `required_peers_count()` computed -/
 def step (s : St) (line : String) : St × String :=
   match tokens line with
   | ["init", mo, iv, cp0] => match mo.toNat?, iv.toNat?, cp0.toNat? with
@@ -217,6 +318,23 @@ def step (s : St) (line : String) : St × String :=
        | .error p => (s, showPanic p)
        | .ok out => (out.st, s!"ok banned {out.banned}"))
     | none => (s, "bad-op")
+  | "latest" :: rest =>
+    (match splitOnTok "|" rest with
+     | [a, ch, tb] => match natsOf a, natsOf ch, parsePeerTable tb with
+       | some [required], some ch, some data =>
+         if required = 0 then (s, showPanic (.expect 50))
+         else (s, showLatest (latestAgreed? required data ch))
+       | _, _, _ => (s, "bad-op")
+     | _ => (s, "bad-op"))
+  | "latestmo" :: rest =>
+    (match splitOnTok "|" rest with
+     | [a, ch, tb] => match natsOf a, natsOf ch, parsePeerTable tb with
+       | some [mo], some ch, some data =>
+         (match latestFor mo data ch with
+          | .error p => (s, showPanic p)
+          | .ok r => (s, showLatest r))
+       | _, _, _ => (s, "bad-op")
+     | _ => (s, "bad-op"))
   | ["dump"] => (s, showSt { s with peers := s.peers.filter (·.2.proved) })
   | _ => (s, "bad-op")
 
